@@ -512,7 +512,11 @@ type DialerCtl struct {
 }
 
 // Script appends scripted outcomes (consumed one per Dial, then Default applies).
-func (d *DialerCtl) Script(o ...Outcome) { d.mu.Lock(); d.script = append(d.script, o...); d.mu.Unlock() }
+func (d *DialerCtl) Script(o ...Outcome) {
+	d.mu.Lock()
+	d.script = append(d.script, o...)
+	d.mu.Unlock()
+}
 
 // SetDefault sets the outcome used when the script is empty.
 func (d *DialerCtl) SetDefault(o Outcome) { d.mu.Lock(); d.Default = o; d.mu.Unlock() }
@@ -526,13 +530,21 @@ func (d *DialerCtl) Release(o Outcome) {
 }
 
 // Log returns a copy of the dial log.
-func (d *DialerCtl) Log() []DialRec { d.mu.Lock(); defer d.mu.Unlock(); return append([]DialRec{}, d.log...) }
+func (d *DialerCtl) Log() []DialRec {
+	d.mu.Lock()
+	defer d.mu.Unlock()
+	return append([]DialRec{}, d.log...)
+}
 
 // Attempts returns the number of Dial invocations started so far.
 func (d *DialerCtl) Attempts() int { d.mu.Lock(); defer d.mu.Unlock(); return len(d.log) }
 
 // Pipes returns pipes created by successful dials.
-func (d *DialerCtl) Pipes() []*Pipe { d.mu.Lock(); defer d.mu.Unlock(); return append([]*Pipe{}, d.pipes...) }
+func (d *DialerCtl) Pipes() []*Pipe {
+	d.mu.Lock()
+	defer d.mu.Unlock()
+	return append([]*Pipe{}, d.pipes...)
+}
 
 // LastPipe returns the most recent pipe or nil.
 func (d *DialerCtl) LastPipe() *Pipe {
